@@ -520,6 +520,35 @@ func dischargeBounds(c *Ctx, fn *ssa.Function, in ssa.Instruction) (string, stri
 				return "trivial (x[0:])", ""
 			}
 		}
+		// G11: s[k:] with a constant k (possibly len("literal")) where a dominating R.MatchString(s) holds and every string
+		// R matches has at least k runes (hence bytes): `val[len("data-"):]` after `^data-.+` matched val
+		if k, ok := lo.(*ssa.Const); ok && hi == nil && k.Int64() > 0 {
+			subj := sym(base)
+			for i, at := range A.Atoms {
+				if at.Kind != "val" {
+					continue
+				}
+				ms, ok := at.X.(*ssa.Call)
+				if !ok || !isMatchString(ms.Common()) || sym(ms.Common().Args[1]) != subj || !holds(pa.AtomF(i)) {
+					continue
+				}
+				if u, ok := ms.Common().Args[0].(*ssa.UnOp); ok {
+					if g, ok := u.X.(*ssa.Global); ok {
+						for _, pv := range pats.RegexpVars(c.P.Main) {
+							if pv.Name != g.Name() || !pv.Const || len(pv.Writes) > 0 {
+								continue
+							}
+							b := relang.NewBuilder()
+							b.AddPattern(pv.Pattern)
+							al := b.Build()
+							if d, err := relang.FromRegexp(pv.Pattern, al); err == nil && int64(d.MinLen()) >= k.Int64() {
+								return fmt.Sprintf("G11 (a dominating %s.MatchString on the same string: every string it accepts has ≥ %d runes)", pv.Name, k.Int64()), ""
+							}
+						}
+					}
+				}
+			}
+		}
 		// G4: s[len(m):] with m = R.FindString(s)
 		if hi == nil && lo != nil {
 			if m := lenOf(lo); m != nil {
